@@ -14,7 +14,9 @@ SRC=/tmp/wt-$ID/OUT
 low=$(echo "$WHICH" | tr 'AB' 'ab')
 OUT=/verif/seeded/$ID-$WHICH
 mkdir -p "$OUT"
-cp "$SRC/$WHICH.diff" "$OUT/patch.diff"; cp "$SRC/demo_$low.rs" "$OUT/demo.rs"
+# first evaluation: take the sub-agent's deliverables; re-evaluation: seeded/<id>/ already holds them
+if [ -f "$SRC/$WHICH.diff" ]; then cp "$SRC/$WHICH.diff" "$OUT/patch.diff"; cp "$SRC/demo_$low.rs" "$OUT/demo.rs"; fi
+[ -f "$OUT/patch.diff" ] || { echo "no patch for $ID-$WHICH"; exit 2; }
 LOG="$OUT/run.log"; : > "$LOG"
 SCR=/tmp/mrepo-$ID-$WHICH
 MV=/tmp/mverif-$ID-$WHICH
